@@ -16,10 +16,20 @@ vars == <<ci, bad>>
 (* a pipe is cut off if at one of its ends every valve attached there is closed *)
 ValvesAt(net, p, j) == {v \in ERows(net) : IsPipeValve(v) /\ v.b = p.lab /\ v.a = j}
 PipeBlocked(net, p) == \E j \in {p.a, p.b} : ValvesAt(net, p, j) # {} /\ \A v \in ValvesAt(net, p, j) : ~v.svc
-HasEdge(net, e) == e.svc /\ ~IsPipeValve(e) /\ JSvc(net, e.a) /\ JSvc(net, e.b)
-                   /\ (e.tbl = "pipe" => ~PipeBlocked(net, e))
-ExpectedEdges(net) == {<<e.tbl, e.lab, e.a, e.b>> : e \in {e \in ERows(net) : HasEdge(net, e)}}
-ExpectedNodes(net) == {j.lab : j \in {j \in JRows(net) : j.svc}}
+(* arguments of create_nxgraph: fl.excl = tables with include_* = False, fl.nrs = tables with respect_status_* = False, *)
+(* fl.rsj = respect_status_junctions.  Defaults: nothing excluded, every status respected.                           *)
+DefaultFlags == [excl |-> {}, nrs |-> {}, rsj |-> TRUE]
+NodeIn(net, fl, l) == JSvc(net, l) \/ ~fl.rsj
+HasEdgeF(net, fl, e) ==
+    /\ ~IsPipeValve(e) /\ e.tbl \notin fl.excl
+    /\ (e.svc \/ e.tbl \in fl.nrs)
+    /\ NodeIn(net, fl, e.a) /\ NodeIn(net, fl, e.b)
+    /\ (e.tbl = "pipe" => (~PipeBlocked(net, e) \/ "valve" \in fl.nrs))
+HasEdge(net, e) == HasEdgeF(net, DefaultFlags, e)
+ExpectedEdgesF(net, fl) == {<<e.tbl, e.lab, e.a, e.b>> : e \in {e \in ERows(net) : HasEdgeF(net, fl, e)}}
+ExpectedNodesF(net, fl) == {j.lab : j \in {j \in JRows(net) : NodeIn(net, fl, j.lab)}}
+ExpectedEdges(net) == ExpectedEdgesF(net, DefaultFlags)
+ExpectedNodes(net) == ExpectedNodesF(net, DefaultFlags)
 Undirected(q) == {<<q[1], q[2], q[3], q[4]>>, <<q[1], q[2], q[4], q[3]>>}
 
 RealEdges(c) == {<<g.tbl, g.lab, g.u, g.v>> : g \in ToSet(c.graph.edges)}
@@ -81,8 +91,18 @@ DistClauses(c) ==
     IN (IF obs # ex THEN {<<"C18.distance", "", "">>} ELSE {})
        \cup (IF obs2 # ex2 THEN {<<"C18.distance_multi_source", "", "">>} ELSE {})
 
+(* a second graph built with non-default arguments *)
+FlagClauses(c) ==
+    IF ~("fgraph" \in DOMAIN c) THEN {} ELSE
+    IF c.fgraph_exc # "" THEN {<<"C18.flag_graph_raised", c.fgraph_exc, "">>} ELSE
+    LET fl == [excl |-> ToSet(c.flags.excl), nrs |-> ToSet(c.flags.nrs), rsj |-> c.flags.rsj]
+        X == ExpectedEdgesF(c.net, fl)
+        R == {<<g.tbl, g.lab, g.u, g.v>> : g \in ToSet(c.fgraph.edges)}
+    IN {<<"C18.flag_missing_edge", q[1], ToString(q[2])>> : q \in {q \in X : Undirected(q) \cap R = {}}}
+       \cup {<<"C18.flag_spurious_edge", q[1], ToString(q[2])>> : q \in {q \in R : Undirected(q) \cap X = {}}}
+       \cup (IF ToSet(c.fgraph.nodes) # ExpectedNodesF(c.net, fl) THEN {<<"C18.flag_nodes", "", "">>} ELSE {})
 CaseClauses(c) == IF c.graph_exc # "" THEN {<<"C18.graph_raised", c.graph_exc, "">>}
-                  ELSE EdgeClauses(c) \cup PatternClauses(c) \cup DistClauses(c)
+                  ELSE EdgeClauses(c) \cup PatternClauses(c) \cup DistClauses(c) \cup FlagClauses(c)
 
 Init == ci = 0 /\ bad = {}
 Step == /\ ci < Len(Cases) /\ ci' = ci + 1
